@@ -6,29 +6,22 @@ const PREFIX: &[u8] = b"\x19Ethereum Signed Message:\n";
 
 /// The EIP-191 preimage for `msg`, built independently: prefix, decimal length, message.
 fn spec_preimage(msg: &[u8], out: &mut [u8; 192]) -> usize {
-    let mut n = 0;
-    while n < PREFIX.len() {
-        out[n] = PREFIX[n];
-        n += 1;
-    }
-    // decimal digits of the length, most significant first, no leading zeros
+    let mut n = PREFIX.len();
+    out[..n].copy_from_slice(PREFIX);
+    // decimal digits of the length, most significant first, no leading zeros (lengths here are < 1000)
     let len = msg.len();
-    let mut div = 1;
-    while len / div >= 10 {
-        div *= 10;
-    }
-    while div > 0 {
-        out[n] = b'0' + ((len / div) % 10) as u8;
+    if len >= 100 {
+        out[n] = b'0' + (len / 100) as u8;
         n += 1;
-        div /= 10;
     }
-    let mut i = 0;
-    while i < msg.len() {
-        out[n] = msg[i];
+    if len >= 10 {
+        out[n] = b'0' + ((len / 10) % 10) as u8;
         n += 1;
-        i += 1;
     }
-    n
+    out[n] = b'0' + (len % 10) as u8;
+    n += 1;
+    out[n..n + len].copy_from_slice(msg);
+    n + len
 }
 
 fn check_digest(msg: &[u8]) {
@@ -55,15 +48,15 @@ macro_rules! digest_harness {
     )*};
 }
 digest_harness! {
-    c10_digest_000 = 0, 40; c10_digest_001 = 1, 40; c10_digest_009 = 9, 44; c10_digest_010 = 10, 46;
-    c10_digest_011 = 11, 46; c10_digest_032 = 32, 66; c10_digest_099 = 99, 134; c10_digest_100 = 100, 136;
-    c10_digest_101 = 101, 138; c10_digest_127 = 127, 164; c10_digest_128 = 128, 164;
+    c10_digest_000 = 0, 14; c10_digest_001 = 1, 14; c10_digest_009 = 9, 14; c10_digest_010 = 10, 14;
+    c10_digest_011 = 11, 14; c10_digest_032 = 32, 14; c10_digest_099 = 99, 14; c10_digest_100 = 100, 14;
+    c10_digest_101 = 101, 14; c10_digest_064 = 64, 14; c10_digest_127 = 127, 14; c10_digest_128 = 128, 14;
 }
 
 // Symbolic length 0..=24 in one query.
 crate::verif_harness! {
     #[kani::stub(ethdigest::Digest::of, crate::__verif_common::digest_of_stub)]
-    #[kani::unwind(60)]
+    #[kani::unwind(14)]
     fn c10_digest_symlen() {
         let buf: [u8; 24] = kani::any();
         let n: usize = kani::any();
